@@ -160,6 +160,10 @@ func (h volumesResourceHandler) ResolveFilter(
 		}
 		return fmt.Sprintf("first_usage %s ?", common.ConvertOperatorToSQL(operator)), []any{value}, nil
 	case balanceRegex.MatchString(property) || property == "balance":
+		if operator == queries.OperatorExists {
+			// balance is a map-typed field, so validation lets $exists through, but it has no SQL form here
+			return "", nil, common.NewErrInvalidQuery("operator '%s' is not allowed for property '%s'", operator, property)
+		}
 		clauses := make([]string, 0)
 		args := make([]any, 0)
 
